@@ -63,13 +63,23 @@ def run_case(case, ctx):
     ttm = M is not None
     modes = [a * b for a, b in zip(M, N)] if ttm else N
     # memory layout of the base point: contiguous cores, cores that are permuted views (rank and mode dims not mergeable), or (operators) the result of t()
-    layout = ['contiguous', 'permuted-views', 'via-t()'][case['seed'] % 3]
+    layout = ['contiguous', 'permuted-views', 'via-t()', 'via-TT-SVD', 'via-round'][case['seed'] % 5]
     if layout == 'permuted-views':
         cs = gens.make_cores(N, R, dt, 'gauss', g, M=M)
         cs = [c.permute(*reversed(range(c.dim()))).contiguous().permute(*reversed(range(c.dim()))) for c in cs]     # same values, reversed strides
         x = torchtt.TT(cs)
     elif layout == 'via-t()' and ttm:
         x = ctx.call('t', lambda a: a.t(), gens.make_tt(M, R, dt, 'gauss', g, M=N))
+    elif layout in ('via-TT-SVD', 'via-round'):
+        # the base point is handed out by the library itself (numpy-integer rank list, non-contiguous cores, orthogonal gauge)
+        x0_ = gens.make_tt(N, R, dt, 'gauss', g, M=M)
+        if layout == 'via-round':
+            x = ctx.call('round', lambda a: a.round(1e-15), x0_)
+        else:
+            x = ctx.call('TT(dense)', lambda a: torchtt.TT(a.full(), [(m, n) for m, n in zip(M, N)], eps=1e-14) if ttm else torchtt.TT(a.full(), eps=1e-14), x0_)
+        if not isinstance(x, torchtt.TT) or [int(r) for r in x.R] != list(R):
+            ctx.count('rejected:provenance-changed-ranks')
+            return
     else:
         layout = 'contiguous'
         x = gens.make_tt(N, R, dt, 'gauss', g, M=M)
